@@ -1,14 +1,7 @@
 #!/bin/bash
-# Semantics-preserving edits must not raise an alarm: applies each to a scratch copy and runs every quick check.
+# Semantics-preserving edits must not raise an alarm: applies each patch of selftest/stay_green to a scratch copy of
+# /repo and runs every quick check against the copy (tools/green_try.sh). Optional argument: a glob of patch names.
 cd /verif
-for d in selftest/stay_green/*.diff; do
-  D=$(mktemp -d /tmp/green.XXXXXX); rsync -a --exclude .git /repo/ $D/repo/
-  (cd $D/repo && patch -p1 -s < /verif/$d && GOFLAGS=-mod=mod GOPROXY=off go build ./... ) || { echo "$d: does not apply/build"; rm -rf $D; continue; }
-  bad=""
-  for p in $(python3 -c "import json;print(' '.join(c['property_id'] for c in json.load(open('MANIFEST.json'))['checks']))"); do
-    out=$(VERIF_REPO=$D/repo VERIF_NOEVIDENCE=1 bin/vcheck prop $p 2>&1)
-    if echo "$out" | grep -q "VIOLATION\|ENGINE-ERROR"; then bad="$bad $p:[$(echo "$out" | grep 'obligation\|ENGINE' | head -2 | cut -c1-160 | tr '\n' ' ')]"; fi
-  done
-  echo "$(basename $d): ${bad:-green}"
-  rm -rf $D
+for d in selftest/stay_green/${1:-*}.diff; do
+  tools/green_try.sh /verif/$d 2>&1 | grep -v "^WARNING" | sed "s|/verif/selftest/stay_green/||"
 done
